@@ -492,7 +492,7 @@ def run_shard(spec, seed, tier):
 
     @st.composite
     def strat(draw):
-        focus = draw(st.sampled_from([None, None, "emfield", "mux", "dlfield", "sfield", "eopf", "dtc"]))
+        focus = draw(st.sampled_from([None, None, "emfield", "emfield", "mux", "dlfield", "sfield", "eopf", "dtc"]))
         c = draw(gen.message_case(opts={"focus": focus, "dtc_r": tuple(range(56, 72))} if focus == "dtc" else {"focus": focus}))
         muts = []
         allsites = list(mutvals.sites(c["msg"]["params"], c["values"]))
